@@ -98,6 +98,44 @@ def _size(ast) -> int:
     return 1 + sum(_size(x) for x in ast[1:] if isinstance(x, list) and x and isinstance(x[0], str))
 
 
+def _template(rng, cfg):
+    """Shapes where the rewrite rules live (drawn in a fraction of the expressions)."""
+    nv = cfg["nv"]
+
+    def v():
+        if cfg["nf"] and rng.random() < 0.3:
+            return ["vf", rng.randrange(cfg["nf"])]
+        return ["v", rng.randrange(nv)]
+
+    def lin(*vs):
+        terms = [["vscale", _gen_rat(rng), x, rng.choice("lr")] if rng.random() < 0.6 else x for x in vs]
+        return terms[0] if len(terms) == 1 else ["vadd"] + terms
+
+    a, b, c, d = v(), v(), v(), v()
+    pick = rng.choice(["norm_scaled_by_product", "dot_cross_span", "dot_cross_cross", "cross_cross_left", "cross_cross_right", "cross_cross_cross", "mixed_repeated", "mixed_composite", "norm_common_factor", "unit_vector"])
+    if pick == "norm_scaled_by_product":
+        prod = rng.choice([["mixed", b, a, ["vadd", c, d]], ["dot", ["vneg", a], ["vadd", a, b]], ["dot", ["cross", a, b], ["vadd", c, d]], ["sneg", ["sadd", ["dot", a, b], ["mixed", a, b, c]]]])
+        return ["norm", ["vscale", prod, rng.choice([a, b, c]), rng.choice("lr")]]
+    if pick == "dot_cross_span":
+        return ["dot", ["cross", a, b], lin(a, b)] if rng.random() < 0.5 else ["dot", ["vadd", ["cross", a, b], c], lin(a)]
+    if pick == "dot_cross_cross":
+        return ["dot", ["cross", a, b], ["cross", c, d]]
+    if pick == "cross_cross_left":
+        return ["cross", ["cross", a, b], lin(c, d)]
+    if pick == "cross_cross_right":
+        return ["cross", lin(c, d), ["cross", a, b]]
+    if pick == "cross_cross_cross":
+        return ["cross", ["cross", a, b], ["cross", c, d]]
+    if pick == "mixed_repeated":
+        return ["mixed", lin(a, b), lin(b, c), lin(a, c)]
+    if pick == "mixed_composite":
+        return ["mixed", ["cross", a, b], c, lin(d, a)]
+    if pick == "norm_common_factor":
+        k = ["s", rng.randrange(cfg["ns"])] if cfg["ns"] else _gen_rat(rng)
+        return ["norm", ["vadd", ["vscale", k, a, "l"], ["vscale", k, b, "l"]]]
+    return ["vscale", ["sinv", ["norm", ["v", rng.randrange(nv)]]], ["v", rng.randrange(nv)], "l"]
+
+
 def _vid(rng):
     return rng.getrandbits(40) | 1
 
@@ -130,9 +168,13 @@ def generate(seed: int, run: int, tier: str) -> dict:
     n_exprs = rng.choice([1, 2, 3, 4])
     cap = rng.choice([8, 14, 14, 22, 22, 34]) if tier == "quick" else rng.choice([8, 14, 22, 34, 50])
     asts = []
+    p_template = rng.choice([0.0, 0.15, 0.4])
     for _ in range(n_exprs):
         for _attempt in range(50):
-            ast = _gen_scalar(rng, depth, cfg) if rng.random() < 0.6 else _gen_vec(rng, depth, cfg)
+            if rng.random() < p_template:
+                ast = _template(rng, cfg)
+            else:
+                ast = _gen_scalar(rng, depth, cfg) if rng.random() < 0.6 else _gen_vec(rng, depth, cfg)
             if 2 <= _size(ast) <= cap:
                 break
         asts.append(ast)
@@ -140,7 +182,9 @@ def generate(seed: int, run: int, tier: str) -> dict:
     p_clear = rng.choice([0.0, 0.1, 0.4])
     p_diff = rng.choice([0.0, 0.3, 0.7]) if has_t else rng.choice([0.0, 0.1])
     assumes = [rng.choice(["none", "real", "positive", "negative"]) for _ in range(ns)]
-    fargs = [rng.choice([["t"], ["t"], ["t", "s0"]]) if ns else ["t"] for _ in range(nf)]
+    fargs = [rng.choice([["t"], ["t"], ["t", "s0"], ["s0", "t"], ["0", "t"], ["t", "0"]]) if ns else rng.choice([["t"], ["t"], ["0", "t"]]) for _ in range(nf)]
+    # declared signature of each vector function (None, equal to, or different from what it is applied to)
+    fdecl = [rng.choice([None, None, "same", ["t"], ["s0"]]) for _ in range(nf)]
 
     ops: list = []
     epochs = rng.choice([1, 2, 2, 3])
@@ -153,7 +197,7 @@ def generate(seed: int, run: int, tier: str) -> dict:
         naming = rng.choice(["distinct", "distinct", "same", "same", "default", "pairs"])
         names = {"distinct": [f"v{i}" for i in range(nv)], "same": ["F"] * nv, "default": [None] * nv, "pairs": [f"u{i // 2}" for i in range(nv)]}[naming]
         fnames = rng.choice([None, ["F"] * nf]) if nf else None
-        ops.append({"op": "fresh", "order": order, "vids": [_vid(rng) for _ in order], "assume": assumes, "fargs": fargs, "sorder": rng.sample(range(ns), ns), "names": names, "fnames": fnames})
+        ops.append({"op": "fresh", "order": order, "vids": [_vid(rng) for _ in order], "assume": assumes, "fargs": fargs, "fdecl": fdecl, "sorder": rng.sample(range(ns), ns), "names": names, "fnames": fnames})
         for ast in asts:
             if rng.random() < p_clear:
                 ops.append({"op": "clear_cache"})
@@ -446,7 +490,7 @@ def ref_eval(ast, dom: Domain):
     if tag == "v":
         return dom.vec(ast[1])
     if tag == "vf":
-        args = [dom.var(a) for a in dom.bind.fargs[ast[1]]]
+        args = [dom.rat(0) if a == "0" else dom.var(a) for a in dom.bind.fargs[ast[1]]]
         return dom.vfunc(ast[1], args)
     if tag == "vzero":
         z = dom.rat(0)
@@ -718,7 +762,7 @@ def _build(ast, world: World, ev):
         return _get_vec(world, ast[1])
     if tag == "vf":
         f = world.vfuncs[ast[1]]
-        return f(*[world.scalars[a] for a in world.fargs[ast[1]]])
+        return f(*[sp.S.Zero if a == "0" else world.scalars[a] for a in world.fargs[ast[1]]])
     if tag == "vzero":
         return sp.S.Zero
     if tag == "vadd":
@@ -810,9 +854,16 @@ def _fresh(world: World, op: dict) -> None:
     world.scalars["t"] = t
     world.scalar_name[t.name] = "t"
     world.vfuncs = {}
+    fdecl = op.get("fdecl") or []
     for j, _args in enumerate(world.fargs):
         fn = op.get("fnames")
-        f = vm.VectorFunction(fn[j] if fn and j < len(fn) else f"F{j}")
+        decl = fdecl[j] if j < len(fdecl) else None
+        if decl == "same":
+            decl = [a for a in _args if a != "0"] if "0" not in _args else None
+        if decl and len(decl) != len(_args):
+            decl = None  # nargs is derived from the declared signature: arity must match the application
+        declared = None if not decl else tuple(world.scalars[a] for a in decl)
+        f = vm.VectorFunction(fn[j] if fn and j < len(fn) else f"F{j}", declared)
         world.vfuncs[j] = f
         world.vfunc_index[f.name] = j
     g = Function("g")
